@@ -296,12 +296,12 @@ PROPS["C12"] = dict(
 # every property not claimed above, with the reason (kept current; see DESIGN.md §6)
 NOT_APPLICABLE = {
     "C01": "not built yet (scanner/parser units pending)",
-    "C02": "whole-compiler simulation theorem over ~60 mutually recursive emitters and VM::run; no contract within reach of Verus/Kani expresses it (DESIGN.md §6)",
+    "C02": "a simulation theorem 'compiled bytecode behaves as the source' needs an operational semantics of VM::run (Verus has the arms one by one, not the loop; Kani cannot compile it) composed with a functional specification of the whole code generator. Round 3 put every compile_* function under structural contracts (cgen unit: append-only well-formed stream, jump shapes, operand order, own-scope symbol access, lines) and those are claimed where they decide a listed property (C01, C04, C06, C09, C13, C14); they say which instructions are emitted, not what executing them yields, so they do not add up to this property (DESIGN.md §6)",
     "C03": "not built yet",
     "C04": "not built yet",
-    "C05": "control flow is decided by jump emission inside compile_*; only matches_type is a free-standing function (DESIGN.md §6)",
+    "C05": "the property is about executions (exactly one branch runs, the chain's value, first matching arm, range bounds, loop exit, break / continue targets). What contracts reach is the jump structure the compiler emits for if / while / loop and the short-circuit operators (cgen unit: if_shape, while_loop_shape, loop_tail, proved, reported under C06) and the jump arms of the VM one by one; composing them into 'exactly one branch is evaluated and its value is the result' needs an operational semantics of VM::run over a well-formed stream with jump targets on instruction starts, which is not within reach; match arms are verified only against the append-only contract (no postcondition about pattern order or range bounds) (DESIGN.md §6)",
     "C06": "not built yet",
-    "C07": "needs an abstract stack-height invariant through the whole expression compiler (DESIGN.md §6)",
+    "C07": "needs an abstract stack-height invariant through the whole code generator: the cgen contracts track the byte stream (instruction boundaries, jumps, lines), not the stack effect of the emitted sequences on every path incl. jumps out of operand positions; per-opcode stack effects are proved in the VM arms but do not add up to the property without that (DESIGN.md §6)",
     "C08": "not built yet",
     "C09": "not built yet",
     "C10": "not built yet",
